@@ -2,7 +2,7 @@
 import histcheck
 
 PID = "C05"
-COMMON = ["hist", "-proj", "stake,dispute", "-boundary", "-gov", "-jumps", "-maxops", "6", "-dbias", "3", "-sbias", "3", "-valstatus"]
+COMMON = ["hist", "-fanout", "-proj", "stake,dispute", "-boundary", "-gov", "-jumps", "-maxops", "6", "-dbias", "3", "-sbias", "3", "-valstatus"]
 
 def run(tier, seed, replay):
     return histcheck.run(
